@@ -1,4 +1,4 @@
-import Tickit.Proof.EvLoopSig
+import Tickit.Proof.EvLoopLog
 import Tickit.Gen.EvLoop
 /-
   C18 — A delivered signal or ready descriptor always reaches its watchers.   (claimed: partial)
@@ -133,6 +133,33 @@ theorem signal_reaches_watchers_repaired (fuel : Nat) (st : St) (s : Int) (i : S
     order, BIND_FIRST registrations first). -/
 theorem signal_watchers_in_order_repaired (fuel : Nat) (st : St) (s : Int) :
     (sigSnapLoopT fuel st s st.signals).2.Sublist st.signals := sigsnap_sublist fuel s st.signals st
+
+/-- On the callback log: every harness watch of signal `s` that was in the list when the walk (as shipped)
+    started and is still in the list when it returns normally has its FIRE entry in the log, whatever the
+    callbacks did in between. -/
+theorem signal_reaches_watchers_logged (fuel : Nat) (st : St) (s : Int) (i : SInv st)
+    (hok : (sigwatchLoopT fuel st s st.signals.head?).1.status = .ok) :
+    ∀ b ∈ st.signals, b ∈ (sigwatchLoopT fuel st s st.signals.head?).1.signals →
+      (st.getW b).signum = s → (st.getW b).slot ≥ 0 →
+      Ev.cb (st.getW b).slot EV_FIRE .none ∈ (sigwatchLoopT fuel st s st.signals.head?).1.log := by
+  intro b hb hfin hsig hslot
+  apply sigwalk_logged fuel st s st.signals.head? i hok b hfin _ hsig hslot
+  cases hl : st.signals with
+  | nil => rw [hl] at hb; cases hb
+  | cons h t =>
+    refine ⟨h, rfl, List.mem_cons_self, ?_⟩
+    rw [hl] at hb
+    simp only [List.mem_cons] at hb
+    rw [aft_cons_self]
+    exact hb
+
+/-- The same for the repaired walk. -/
+theorem signal_reaches_watchers_logged_repaired (fuel : Nat) (st : St) (s : Int) (i : SInv st)
+    (hok : (sigSnapLoopT fuel st s st.signals).1.status = .ok) :
+    ∀ b ∈ st.signals, b ∈ (sigSnapLoopT fuel st s st.signals).1.signals →
+      (st.getW b).signum = s → (st.getW b).slot ≥ 0 →
+      Ev.cb (st.getW b).slot EV_FIRE .none ∈ (sigSnapLoopT fuel st s st.signals).1.log :=
+  fun b hb hfin hsig hslot => sigsnap_logged fuel s st.signals st i hok b hb (i.alloc b hb) hfin hsig hslot
 
 /-! ### descriptors -/
 
